@@ -124,7 +124,7 @@ def _post_wrap(engine, st, ctx, out):
     if isinstance(out, Raise):
         cl.append(("an exception is re-raised unchanged (the thread ends with the loop's own error)", "PC", engine.to_val(st, out.exc) == ev.exc, ["C18"]))
     else:
-        msg_checked = any(("cannot schedule new futures after" in a) and ("str(" in a) and b for a, b in st.decisions)
+        msg_checked = any(a == "'cannot schedule new futures after' in str(error)" and b for a, b in st.decisions)
         cl.append(("only a RuntimeError whose text says 'cannot schedule new futures after ...' (interpreter shutting down) is swallowed", "PC",
                    z3.And(rt, engine.to_val(st, out) == NONE, z3.BoolVal(msg_checked)), ["C18", "C11"]))
     return cl
